@@ -1,11 +1,11 @@
 import PytezosModel.Michelson.Interp.Impl
 import PytezosModel.Michelson.Interp.Spec
+import PytezosModel.Proofs.InterpTables
 /-! Python's integer operations used by `arithmetic.py` / `boolean.py` against the arithmetic of the reference:
 floor `divmod` + adjustment = Euclidean division; `<<` / `>>` = multiplication / division by a power of two;
 two's complement `&`, `|`, `^` on the operand classes of the dispatch tables. -/
 namespace Interp
 
-theorem edivTy_eq : Impl.edivTy = Spec.edivTy := by funext a b; cases a <;> cases b <;> rfl
 
 /-- `divmod` floors; adding `abs(b)` to a negative remainder (and one to the quotient) gives Euclidean division -/
 theorem pyEdiv_eq (a b : Int) (hb : b ≠ 0) : Impl.pyEdiv a b = (a / b, a % b) := by
@@ -66,23 +66,21 @@ theorem pyAnd_nat_int (x y : Int) (hx : 0 ≤ x) : Impl.pyAnd x y = Int.ofNat (S
   | negSucc m => exact absurd hx (by simp [Int.negSucc_not_nonneg])
 
 theorem natFromValue_ofNat (n : Nat) : Impl.numFromValue .nat (n : Int) = .ok (.num .nat (n : Int)) := by
-  simp [Impl.numFromValue]
+  rw [numFromValue_eq]; simp [Spec.numOk]
 
 /-- `execute_shift` against the reference rule (shift in `[0, 256]`) -/
 theorem execShift_lsl (x n : Int) (h : 0 ≤ n ∧ n ≤ 256) :
     Impl.execShift (fun x n => x <<< n) (.num .nat x) (.num .nat n) = Spec.numOk .nat (x * 2 ^ n.toNat) := by
   have h1 : n < 257 := by omega
   have h2 : ¬ n < 0 := by omega
-  simp only [Impl.execShift, h1, h2, if_true, if_false, Int.shiftLeft_eq]
-  cases hq : Spec.numOk .nat (x * 2 ^ n.toNat) <;> simp_all [Impl.numFromValue, Spec.numOk]
+  simp only [Impl.execShift, shiftLimit_eq, cast_257, h1, h2, if_true, if_false, Int.shiftLeft_eq, numFromValue_eq]
 
 theorem execShift_lsr (x n : Int) (h : 0 ≤ n ∧ n ≤ 256) :
     Impl.execShift (fun x n => x >>> n) (.num .nat x) (.num .nat n) = Spec.numOk .nat (x / 2 ^ n.toNat) := by
   have h1 : n < 257 := by omega
   have h2 : ¬ n < 0 := by omega
-  simp only [Impl.execShift, h1, h2, if_true, if_false, Int.shiftRight_eq_div_pow]
+  simp only [Impl.execShift, shiftLimit_eq, cast_257, h1, h2, if_true, if_false, Int.shiftRight_eq_div_pow, numFromValue_eq]
   have : ((2 ^ n.toNat : Nat) : Int) = 2 ^ n.toNat := by simp
   rw [this]
-  cases hq : Spec.numOk .nat (x / 2 ^ n.toNat) <;> simp_all [Impl.numFromValue, Spec.numOk]
 
 end Interp
